@@ -4,6 +4,7 @@ import AdaptixModel.Gen.Names
 import AdaptixModel.Gen.Skeleton
 import AdaptixModel.Gen.CtorCall
 import AdaptixModel.Gen.Broach
+import AdaptixModel.Gen.Literal
 import AdaptixModel.Generated.C19Sites
 
 /-! JSON ops of the C19 driver.  Strings travel as arrays of code points. -/
@@ -125,9 +126,66 @@ def encSpec (s : NameSpec) : Json :=
   Json.mkObj [("families", listJ (s.families.map encStr)), ("fixed", listJ (s.fixed.map encStr)),
               ("heads", listJ (s.heads.map encStr))]
 
+/-! the literal renderer (`Gen/Literal.lean`) -/
+open Adaptix.Gen.Literal in
+def decLeafKind (k : String) (j : Json) : Except String (Option Leaf) := do
+  match k with
+  | "int" => return some (.int (← fieldInt j "v"))
+  | "str" => return some (.str (← fieldS j "s"))
+  | "bytes" => return some (.bytes (← fieldS j "b"))
+  | "float" => return some (.float (← fieldS j "r"))
+  | _ => return none
+
+open Adaptix.Gen.Literal in
+partial def decVal (j : Json) : Except String PyVal := do
+  let k ← fieldStr j "k"
+  match ← decLeafKind k j with
+  | some l => return .leaf l
+  | none =>
+  match k with
+  | "bytearray" => return .bytearray (← fieldS j "b")
+  | "nonfinite" => return .nonfinite
+  | "builtin" => return .builtin (← fieldS j "n")
+  | "opaque" => return .opaque (← fieldNat j "t")
+  | "list" => return .list (← (← fieldArr j "xs").mapM decVal)
+  | "tuple" => return .tuple (← (← fieldArr j "xs").mapM decVal)
+  | "set" => return .set (← (← fieldArr j "xs").mapM decVal)
+  | "frozenset" => return .frozenset (← (← fieldArr j "xs").mapM decVal)
+  | "slice" => return .slice (← decVal (← field j "a")) (← decVal (← field j "b")) (← decVal (← field j "c"))
+  | "range" => return .range (← fieldInt j "a") (← fieldInt j "b") (← fieldInt j "c")
+  | "dict" => return .dict (← (← fieldArr j "ks").mapM decVal) (← (← fieldArr j "vs").mapM decVal)
+  | _ => throw s!"bad value kind {k}"
+
+open Adaptix.Gen.Literal in
+def encLeaf : Leaf → Json
+  | .int n => Json.mkObj [("k", "int"), ("v", intJ n)]
+  | .str s => Json.mkObj [("k", "str"), ("s", encStr s)]
+  | .bytes b => Json.mkObj [("k", "bytes"), ("b", encStr b)]
+  | .float r => Json.mkObj [("k", "float"), ("r", encStr r)]
+
+open Adaptix.Gen.Literal in
+def ctorName : Ctor → String
+  | .set => "set" | .frozenset => "frozenset" | .slice => "slice" | .range => "range" | .bytearray => "bytearray"
+
+open Adaptix.Gen.Literal in
+partial def encExpr : Expr → Json
+  | .const l => Json.mkObj [("e", "const"), ("l", encLeaf l)]
+  | .name n => Json.mkObj [("e", "name"), ("n", encStr n)]
+  | .list es => Json.mkObj [("e", "list"), ("es", listJ (es.map encExpr))]
+  | .tuple es => Json.mkObj [("e", "tuple"), ("es", listJ (es.map encExpr))]
+  | .set es => Json.mkObj [("e", "set"), ("es", listJ (es.map encExpr))]
+  | .dict ks vs => Json.mkObj [("e", "dict"), ("ks", listJ (ks.map encExpr)), ("vs", listJ (vs.map encExpr))]
+  | .call f args => Json.mkObj [("e", "call"), ("f", ctorName f), ("args", listJ (args.map encExpr))]
+
 def handle : Protocol.Handler := fun j => do
   let op ← fieldStr j "op"
   match op with
+  | "literal" =>
+    -- `get_literal_expr(value)`: the expression tree of the text, or null
+    let v ← decVal (← field j "v")
+    match Adaptix.Gen.Literal.toExpr v with
+    | some e => return Json.mkObj [("expr", encExpr e), ("renderable", Json.bool (Adaptix.Gen.Literal.renderable v))]
+    | none => return Json.mkObj [("expr", Json.null), ("renderable", Json.bool (Adaptix.Gen.Literal.renderable v))]
   | "repr" =>
     let s ← fieldS j "s"
     let pr ← fieldS j "printable"
